@@ -17,6 +17,7 @@ import (
 	"fmt"
 	"net"
 	"sort"
+	"strings"
 
 	tls "github.com/refraction-networking/utls"
 	"verif/harness/hs"
@@ -33,6 +34,7 @@ const (
 type parrot struct {
 	hs.Parrot
 	alps uint16 // code point the spec offers, 0 = none
+	psk  bool   // the spec carries a pre_shared_key extension (or it is HelloGolang): TLS 1.3 resumption possible
 }
 
 // alpsParrots: every predefined parrot whose spec carries an ALPS extension, then some that do not.
@@ -44,7 +46,7 @@ func alpsParrots(seed int64) []parrot {
 			continue
 		}
 		var cp uint16
-		hasALPN := false
+		hasALPN, psk := false, false
 		for _, e := range spec.Extensions {
 			switch e.(type) {
 			case *tls.ApplicationSettingsExtension:
@@ -53,12 +55,14 @@ func alpsParrots(seed int64) []parrot {
 				cp = cpNew
 			case *tls.ALPNExtension:
 				hasALPN = true
+			case tls.PreSharedKeyExtension:
+				psk = true
 			}
 		}
 		if cp != 0 {
-			with = append(with, parrot{p, cp})
+			with = append(with, parrot{p, cp, psk})
 		} else if hasALPN {
-			without = append(without, parrot{p, 0})
+			without = append(without, parrot{p, 0, psk})
 		}
 	}
 	out := with
@@ -69,7 +73,7 @@ func alpsParrots(seed int64) []parrot {
 			}
 		}
 	}
-	out = append(out, parrot{hs.Parrot{Name: "Golang", ID: tls.HelloGolang}, 0})
+	out = append(out, parrot{hs.Parrot{Name: "Golang", ID: tls.HelloGolang}, 0, true})
 	// randomized fingerprints that offer TLS 1.3 and ALPN
 	nr := 0
 	for _, p := range hs.RandomizedParrots(16, seed) {
@@ -83,7 +87,7 @@ func alpsParrots(seed int64) []parrot {
 		}
 		v := tls.VerifClientViewOf(uc)
 		if hs.ContainsU16(v.SupportedVersions, tls.VersionTLS13) && len(v.ALPN) > 0 && nr < 2 {
-			out = append(out, parrot{p, 0})
+			out = append(out, parrot{p, 0, false})
 			nr++
 		}
 	}
@@ -167,12 +171,20 @@ func ext(id uint16, data []byte) []byte {
 }
 
 type scen struct {
-	kind     string // "pos", "dup", "no-alpn", "unoffered-alpn", "ee-early", "ee-quic", "tls12", "tls11"
+	kind     string // "pos", "dup", "mtls-cert", "mtls-nocert", "first", "first-no-alpn", "resumed", "resumed-no-alpn", "no-alpn", "unoffered-alpn", "ee-early", "ee-quic", "tls12", "tls11"
 	cp       uint16
 	mapKind  int
 	wantH2   bool // server prefers h2 (else http/1.1) among what the client offers
 	alpsLen  int
 	toCoq    bool
+	sess     *session // non-nil: part of a two-connection history sharing a ClientSessionCache and the server's ticket keys
+}
+
+// session: what two connections of one history share.
+type session struct {
+	cache   tls.ClientSessionCache
+	scfg    *tls.Config
+	resumed bool // set by the second connection: the client resumed with the PSK
 }
 
 func run(c *vh.Ctx) {
@@ -244,6 +256,27 @@ func run(c *vh.Ctx) {
 					scen{kind: "tls11", cp: cpOld, mapKind: 0, wantH2: true, alpsLen: 3, toCoq: true},
 					scen{kind: "no-alps", cp: 0, mapKind: 1, wantH2: true, toCoq: true})
 			}
+			// mutual TLS: the server also sends a CertificateRequest; the client answers with a certificate or an empty one
+			scs = append(scs,
+				scen{kind: "mtls-cert", cp: []uint16{cpOld, cpNew}[pi%2], mapKind: pi % 3, wantH2: true, alpsLen: 9, toCoq: true},
+				scen{kind: "mtls-nocert", cp: []uint16{cpNew, cpOld}[pi%2], mapKind: (pi + 1) % 3, wantH2: pi%3 != 0, alpsLen: 4, toCoq: true})
+			// two-connection histories: a full handshake that earns a ticket, then a connection that (for PSK-capable clients)
+			// resumes with it while the server negotiates ALPS again; once with and once without ALPN on both connections
+			newSess := func(alpn ...string) *session {
+				scfg := pki.ServerConfig(alpn...)
+				scfg.SessionTicketsDisabled = false
+				return &session{cache: tls.NewLRUClientSessionCache(4), scfg: scfg}
+			}
+			if p.psk || c.Tier != "quick" {
+				s1 := newSess("h2", "http/1.1")
+				scs = append(scs,
+					scen{kind: "first", cp: cpOld, mapKind: 1, wantH2: true, alpsLen: 5, toCoq: false, sess: s1},
+					scen{kind: "resumed", cp: []uint16{cpNew, cpOld}[pi%2], mapKind: 1, wantH2: true, alpsLen: 11, toCoq: true, sess: s1})
+				s2 := newSess()
+				scs = append(scs,
+					scen{kind: "first-no-alpn", cp: 0, mapKind: 0, toCoq: false, sess: s2},
+					scen{kind: "resumed-no-alpn", cp: []uint16{cpOld, cpNew}[pi%2], mapKind: 0, alpsLen: 6, toCoq: true, sess: s2})
+			}
 			for _, s := range scs {
 				one(c, pki, p, s, rb)
 				live++
@@ -268,6 +301,11 @@ func one(c *vh.Ctx, pki *hs.PKI, p parrot, s scen, rb func(int) []byte) {
 		prefs = []string{"http/1.1", "h2"}
 	}
 	scfg := pki.ServerConfig(prefs...)
+	if s.sess != nil {
+		scfg = s.sess.scfg
+		prefs = scfg.NextProtos
+		ccfg.ClientSessionCache = s.sess.cache
+	}
 	script := &tls.VerifServerScript{ALPSCodepoint: s.cp, ALPSData: alpsData, ReadClientEE: s.cp != 0}
 	expCp, expData := s.cp, alpsData
 	var serverEE []byte
@@ -279,6 +317,11 @@ func one(c *vh.Ctx, pki *hs.PKI, p parrot, s scen, rb func(int) []byte) {
 		d2 := rb(s.alpsLen + 2)
 		script.ExtraEncryptedExtensions = append(ext(0x3a3a, rb(2)), ext(other, d2)...)
 		expCp, expData = other, d2
+	case "mtls-cert", "mtls-nocert":
+		scfg.ClientAuth = tls.RequestClientCert
+		if s.kind == "mtls-cert" {
+			ccfg.Certificates = []tls.Certificate{pki.ECDSA}
+		}
 	case "no-alpn":
 		scfg = pki.ServerConfig()
 	case "unoffered-alpn":
@@ -333,8 +376,33 @@ func one(c *vh.Ctx, pki *hs.PKI, p parrot, s scen, rb func(int) []byte) {
 		"negotiated_protocol": proto, "client_encrypted_extensions": vh.Hex(cee), "alert_from_client": r.AlertFromClient, "version": r.ClientState.Version}
 	key := fmt.Sprintf("%s/%s/%d/%s/%v", p.Name, s.kind, s.cp, mapKinds[s.mapKind].name, s.wantH2)
 
+	if s.sess != nil {
+		input["history"] = "second connection of a history sharing ClientSessionCache and ticket keys: " + fmt.Sprint(s.kind == "resumed" || s.kind == "resumed-no-alpn")
+		got["did_resume"] = r.ClientState.DidResume
+		if s.kind == "resumed" || s.kind == "resumed-no-alpn" {
+			if r.ClientState.DidResume {
+				c.Count("resumed-connections")
+			} else if completed {
+				c.Count("not-resumed/" + p.Name)
+			}
+		}
+	}
+	// the first message of the client's second flight as the server met it
+	firstOfFlight := 0
+	switch {
+	case cee != nil:
+		firstOfFlight = 8
+	case r.ServerErr != nil && strings.Contains(r.ServerErr.Error(), "unexpected handshake message of type *tls.certificateMsgTLS13"):
+		firstOfFlight = 11
+	case r.ServerErr != nil && strings.Contains(r.ServerErr.Error(), "unexpected handshake message of type *tls.finishedMsg"):
+		firstOfFlight = 20
+	case r.ServerErr != nil && strings.Contains(r.ServerErr.Error(), "unexpected handshake message of type *tls.certificateVerifyMsg"):
+		firstOfFlight = 15
+	}
+	got["first_message_of_client_flight"] = firstOfFlight
+
 	switch s.kind {
-	case "pos", "dup":
+	case "pos", "dup", "mtls-cert", "mtls-nocert", "first", "resumed":
 		want, _ := hs.NegotiatedALPN(prefs, r.View.ALPN)
 		if want == "" {
 			c.Count("skipped/no-common-alpn")
@@ -360,10 +428,23 @@ func one(c *vh.Ctx, pki *hs.PKI, p parrot, s scen, rb func(int) []byte) {
 			case configured && !bytes.Equal(gset, wantLocal):
 				c.Fail("alps-local/"+p.Name, "the client's EncryptedExtensions does not carry Config.ApplicationSettings[negotiated protocol]", input, got, vh.Hex(wantLocal))
 			}
+			if cee == nil && firstOfFlight != 0 {
+				c.Fail("alps-order/"+p.Name, fmt.Sprintf("the client's second flight does not start with its EncryptedExtensions: the server, waiting for it right after its own Finished, met handshake type %d", firstOfFlight),
+					input, got, "EncryptedExtensions, then Certificate / CertificateVerify if requested, then Finished")
+			}
 			if r.ServerErr != nil || !r.AppData {
 				c.Fail("alps-finished/"+p.Name, "the server could not finish the handshake (client Finished / first application record) after reading the client's EncryptedExtensions into its transcript",
 					input, got, "server accepts the client Finished")
 			}
+		}
+	case "first-no-alpn":
+		if !completed || r.ServerErr != nil {
+			c.Count("history-first-connection-failed/" + p.Name)
+		}
+	case "resumed-no-alpn":
+		if completed {
+			c.Fail("alps-reject/no-alpn-resumed", "the client accepted application settings although no ALPN protocol was negotiated (second connection of a history, resumed="+fmt.Sprint(r.ClientState.DidResume)+")",
+				input, got, "handshake aborted")
 		}
 	case "no-alps":
 		if !completed || len(peer) != 0 || r.ServerErr != nil {
@@ -408,9 +489,13 @@ func one(c *vh.Ctx, pki *hs.PKI, p parrot, s scen, rb func(int) []byte) {
 		c.Count("skipped/no-server-ee")
 		return
 	}
+	if s.cp != 0 && firstOfFlight != 0 && completed && (s.kind == "mtls-cert" || s.kind == "mtls-nocert" || liveN%8 == 0) {
+		ncert := map[string]int{"mtls-cert": 2, "mtls-nocert": 1}[s.kind]
+		c.Case("flight-order", fmt.Sprintf("(CFlight %d %d %d)", expCp, ncert, firstOfFlight), key, ncert > 0, nil)
+	}
 	if s.toCoq {
-		c.Case("run13", fmt.Sprintf("(CRun %s %s %s %s %d %s %s %s)", strsTerm(r.View.ALPN), pairsTerm(settings), vh.Bytes(serverEE),
-			vh.Bool(completed), hs.ClientAlert(r), vh.Bytes(peer), vh.Str(proto), optBytes(cee)), key, nontrivial, input)
+		c.Case("run13", fmt.Sprintf("(CRun %s %s %s %s %d %s %s %s %s)", strsTerm(r.View.ALPN), pairsTerm(settings), vh.Bytes(serverEE),
+			vh.Bool(completed), hs.ClientAlert(r), vh.Bytes(peer), vh.Str(proto), optBytes(cee), vh.Bool(r.ClientState.DidResume)), key, nontrivial, input)
 		liveN++
 		if liveN%5 == 0 {
 			eeCase(c, serverEE, "live/"+key)
